@@ -236,7 +236,7 @@ StringDictionaryRPHTFC::StringDictionaryRPHTFC(IteratorDictString *it,
       // Updating the ptr value to the beginning of the corresponding internal
       // string
       ptrB = beginnings[bucket - 1];
-      ptrE = beginnings[bucket] - 1;
+      ptrE = beginnings[bucket]; // one past the last internal symbol
 
       // Adding an ending decodeable string  (if required)
       if (textSubstr.size() > 0) {
@@ -282,7 +282,7 @@ StringDictionaryRPHTFC::StringDictionaryRPHTFC(IteratorDictString *it,
       offset = 0;
       textStrings[bytesStrings] = 0;
 
-      for (; ptrB <= ptrE; ptrB++)
+      for (; ptrB < ptrE; ptrB++)
         bytesStrings += encodeSymbol(intStrings[ptrB],
                                      &(textStrings[bytesStrings]), &offset);
 
